@@ -172,6 +172,31 @@ def dense_spec(rng, nt=None, nc=None, ns=None, nsw=None, curated=None, whiten=No
     return spec
 
 
+INT_POSITION_DTYPES = ('int8', 'uint8', 'int16', 'uint16', 'int32', 'uint32', 'int64', 'uint64')
+
+
+def probe_positions(rng, nc, dtype='float64'):
+    """A probe-like site layout with coordinates in micrometres that `dtype` can hold: 1, 2 or 4 columns of sites
+    (even rows of a 2-column layout optionally staggered), rows `pitch` apart (20 .. 100 um where the dtype has
+    room, less for the 8-bit types).  Over >= 16 sites the squared distances exceed the range of the 8- and 16-bit
+    integer types, so distances computed in the dtype of the file would wrap around.  Sites are pairwise distinct;
+    returned in a random site order half of the time (channel k need not be the k-th site)."""
+    ncol = rng.pick([1, 1, 2, 2, 4])
+    nrow = -(-nc // ncol)
+    hi = int(np.iinfo(dtype).max) if np.dtype(dtype).kind in 'iu' else 10 ** 6
+    xs = {1: [0], 2: [0, 32], 4: [11, 27, 43, 59]}[ncol]
+    stagger = 16 if (ncol == 2 and rng.random() < .5) else 0
+    room = (hi - 16) // max(1, nrow - 1) if nrow > 1 else 100
+    pitches = [p for p in (100, 40, 25, 20, 15, 10, 5, 3) if p <= room]
+    pitch = rng.pick(pitches[:3])
+    y0 = rng.pick([0, 0, 20]) if hi > 1000 else 0
+    sites = [[float(xs[i % ncol] + stagger * ((i // ncol) % 2)), float(y0 + (i // ncol) * pitch)] for i in range(nc)]
+    assert len({tuple(s) for s in sites}) == nc and max(max(s) for s in sites) <= hi
+    if rng.random() < .5:
+        rng.shuffle(sites)
+    return sites
+
+
 def check_wmi(spec, wmi):
     """The inverse whitening matrix a model shows is the stored inverse when the dataset has one, an
     inverse of the stored whitening matrix otherwise (identity without whitening). Returns a message
